@@ -1,5 +1,7 @@
 #!/bin/bash
-# tools/rundriver.sh <driver> <pkgdir>: run a replay driver against /repo's working tree
-d=$(mktemp -d); echo "{\"Replace\":{\"/repo/$2/zz_verif_replay_test.go\":\"/verif/replay/drivers/$1_test.go\"}}" > $d/ov.json
+# tools/rundriver.sh <driver> <pkgdir> [lines]: run a replay driver against /repo's working tree
+d=$(mktemp -d); c=/verif/replay/drivers/$(basename $2)_common_test.go
+if [ -f $c ]; then extra=",\"/repo/$2/zz_verif_replay_common_test.go\":\"$c\""; fi
+echo "{\"Replace\":{\"/repo/$2/zz_verif_replay_test.go\":\"/verif/replay/drivers/$1_test.go\"$extra}}" > $d/ov.json
 cd /repo && GOFLAGS=-mod=mod GOPROXY=off GOSUMDB=off GOTOOLCHAIN=local go test -tags verif -overlay $d/ov.json -vet=off -count=1 -timeout 120s -run "^TestVerifReplay_$1\$" ./$2 2>&1 | tail -${3:-8}
 rm -rf $d
